@@ -239,3 +239,78 @@ func verifExec(codes []instruction, stack []Value) (out []Value, panicked bool) 
 	}
 	return sb.String(), names
 }
+
+// c04PositionProgs: the syntactic positions of C04 as Go programs (shape E): typed declarations with constant
+// initialisers, constant on either side, compound assignment, ++/--, conversions between all pairs, and constant
+// adoption by parameters, results, fields, elements and map values.
+func c04PositionProgs() []*Prog {
+	var progs []*Prog
+	id := 0
+	add := func(fam string, params []Param, res string, body string, decls string) {
+		name := fmt.Sprintf("f%d", id)
+		id++
+		var ps []string
+		for _, p := range params {
+			ps = append(ps, p.Name+" "+p.Type)
+		}
+		src := fmt.Sprintf("package main\n\n%sfunc %s(%s) %s {\n%s}\n", decls, name, strings.Join(ps, ", "), res, body)
+		progs = append(progs, &Prog{ID: "pos:" + fam, Src: src, Entry: name, Params: params, Results: []string{res}, Family: "C04/E/" + fam})
+	}
+	consts := map[string][]string{
+		"int":     {"0", "1", "2147483647", "-2147483648", "100"},
+		"byte":    {"0", "1", "255", "200", "128"},
+		"int8":    {"0", "1", "127", "-128", "100"},
+		"uint32":  {"0", "1", "4294967295", "2147483648", "3000000000"},
+		"float64": {"0", "1", "2.5", "1e10", "-3"},
+	}
+	types5 := []string{"int", "byte", "int8", "uint32", "float64"}
+	intOps := []string{"+", "-", "*", "/", "%", "&", "|", "^", "<<", ">>"}
+	for _, t := range types5 {
+		for _, k := range consts[t] {
+			add(t+"/var-typed-const/"+k, []Param{{"a", t}}, t, fmt.Sprintf("\tvar x %s = %s\n\tx += a\n\tx++\n\treturn x\n", t, k), "")
+			add(t+"/short-decl-conv/"+k, []Param{{"a", t}}, t, fmt.Sprintf("\tx := %s(%s)\n\ty := x\n\ty -= a\n\ty--\n\treturn y * x\n", t, k), "")
+			ops := []string{"+", "-", "*", "/"}
+			if t != "float64" {
+				ops = intOps
+			}
+			for _, op := range ops {
+				if (op == "<<" || op == ">>") && (strings.HasPrefix(k, "-") || len(k) > 2) {
+					continue
+				}
+				if (op == "/" || op == "%") && k == "0" {
+					// x / 0 with a constant divisor is a compile error in Go; keep the constant on the left only
+					add(t+"/const-op-var/"+op+k, []Param{{"a", t}}, t, fmt.Sprintf("\treturn %s %s a\n", k, op), "")
+					continue
+				}
+				add(t+"/var-op-const/"+op+k, []Param{{"a", t}}, t, fmt.Sprintf("\treturn a %s %s\n", op, k), "")
+				if op != "<<" && op != ">>" {
+					add(t+"/const-op-var/"+op+k, []Param{{"a", t}}, t, fmt.Sprintf("\treturn %s %s a\n", k, op), "")
+				}
+				add(t+"/assign-op-const/"+op+k, []Param{{"a", t}}, t, fmt.Sprintf("\tx := a\n\tx %s= %s\n\treturn x\n", op, k), "")
+			}
+			// constant adoption: parameter, result, field, element, map value
+			add(t+"/adopt/"+k, []Param{{"a", t}}, t,
+				fmt.Sprintf("\tp := &H{v: %s}\n\ts := []%s{%s, a}\n\tm := map[string]%s{\"k\": %s}\n\tp.v += a\n\ts[0] += a\n\tm[\"k\"] += a\n\treturn id(%s) + a + p.v + s[0] + m[\"k\"] + konst()\n", k, t, k, t, k, k),
+				fmt.Sprintf("type H struct {\n\tv %s\n}\n\nfunc id(x %s) %s {\n\treturn x + x\n}\n\nfunc konst() %s {\n\treturn %s\n}\n\n", t, t, t, t, k))
+		}
+		for _, s := range types5 {
+			if s == "float64" && t != "float64" {
+				// out-of-range float→int conversions are implementation-defined in Go: keep the operand small
+				add(s+"-to-"+t, []Param{{"a", "int8"}}, t, fmt.Sprintf("\tf := float64(a) / 2\n\tif f < 0 {\n\t\tf = -f\n\t}\n\treturn %s(f) + %s(f)\n", t, t), "")
+				continue
+			}
+			add(s+"-to-"+t, []Param{{"a", s}}, t, fmt.Sprintf("\tx := %s(a)\n\treturn x + x\n", t), "")
+		}
+		// comparisons
+		for _, op := range []string{"<", "<=", ">", ">=", "==", "!="} {
+			add(t+"/cmp/"+op, []Param{{"a", t}, {"b", t}}, "bool", fmt.Sprintf("\treturn a %s b\n", op), "")
+			add(t+"/cmp-const/"+op, []Param{{"a", t}}, "bool", fmt.Sprintf("\treturn a %s %s\n", op, consts[t][2]), "")
+		}
+		add(t+"/neg", []Param{{"a", t}}, t, "\treturn -a\n", "")
+		if t != "float64" {
+			add(t+"/complement", []Param{{"a", t}}, t, "\treturn ^a\n", "")
+			add(t+"/shift-by-var", []Param{{"a", t}, {"n", "byte"}}, t, "\treturn a<<n + a>>n\n", "")
+		}
+	}
+	return progs
+}
